@@ -59,6 +59,7 @@ type c18Job struct {
 	Show    string   // diff
 	Sort    string   // diff
 	Repeat  int      // publish: number of repetitions in the same process (each compared by the parent)
+	Pre     []byte   // diff / query: the same operation is done on this document first, in the same process
 }
 
 type c18File struct {
@@ -196,6 +197,11 @@ func init() {
 			}()
 			switch job.Kind {
 			case "diff":
+				if len(job.Pre) > 0 { // history: an earlier report in the same process
+					pre := job
+					pre.Gedcom, pre.Gedcom2 = job.Pre, job.Pre
+					c18RenderDiff(&pre)
+				}
 				run, err := c18RenderDiff(&job)
 				if err != nil {
 					res.Panic = "decode: " + err.Error()
@@ -203,6 +209,11 @@ func init() {
 				}
 				res.Runs = append(res.Runs, run)
 			case "query":
+				if len(job.Pre) > 0 {
+					pre := job
+					pre.Gedcom = job.Pre
+					c18RenderQueries(&pre)
+				}
 				run, err := c18RenderQueries(&job)
 				if err != nil {
 					res.Panic = "decode: " + err.Error()
